@@ -151,6 +151,10 @@ pub fn guarded<T>(f: impl FnOnce() -> T) -> Outcome<T> {
     }
 }
 
+/// Step budget of one call: the quadratic bound for small inputs, a generous linear one for large inputs (the pinned
+/// tree has inputs on which the sweep never terminates; with thousands of edges the quadratic bound would let such a
+/// call run for hours).
 pub fn event_budget(edges: usize) -> u64 {
-    8 * (edges as u64) * (edges as u64) + 1000
+    let n = edges as u64;
+    (8 * n * n + 1000).min(64 * n + 20_000)
 }
